@@ -39,8 +39,30 @@ def artefacts (g : G) (C : List Nat) : List Nat :=
 /-- **owned g x**: the element, everything it owns, and the peering artefacts created for its interfaces -/
 def owned (g : G) (x : Nat) : List Nat :=
   if g.cls? x == some .link then
-    x :: (if (g.nbrs x .connects .cp).length == 2 then (g.nbrs x .connects .cp).filter (fun p => g.kind? p == some kServicePort) else [])
+    x :: (g.nbrs x .connects .cp).filter (fun p => g.kind? p == some kServicePort)
   else dedup (below g x ++ artefacts g (below g x))
+
+/-! ### The same, as relations (no fuel): what the theorems are stated against -/
+
+/-- reflexive-transitive ownership below `x` -/
+inductive Below (g : G) (x : Nat) : Nat → Prop
+  | refl : Below g x x
+  | step {a b : Nat} : Below g x a → b ∈ children g a → Below g x b
+
+/-- `l` is the Link that joins interface `i` to exactly one other connection point -/
+def LinkOf (g : G) (i l : Nat) : Prop :=
+  g.cls? i = some .cp ∧ l ∈ g.nbrs i .connects .link ∧ (g.nbrs l .connects .cp).length = 2
+
+/-- `p` is the ServicePort at the other end of that Link (the service-side port created by `connect_interface` / `peer`) -/
+def PortOf (g : G) (i p : Nat) : Prop :=
+  ∃ l, LinkOf g i l ∧ p ∈ g.nbrs l .connects .cp ∧ p ≠ i ∧ g.kind? p = some kServicePort
+
+/-- the element, everything it owns, and the Links created for the peering of its interfaces: what the graph-layer
+`remove_*` functions are to delete -/
+def OwnedG (g : G) (x y : Nat) : Prop := ∃ i, Below g x i ∧ (y = i ∨ LinkOf g i y)
+
+/-- **`owned g x`**: additionally the service-side ports: what the user-level calls are to delete -/
+def Owned (g : G) (x y : Nat) : Prop := ∃ i, Below g x i ∧ (y = i ∨ LinkOf g i y ∨ PortOf g i y)
 
 /-- same set -/
 def sameSet (a b : List Nat) : Bool := a.all (fun x => b.contains x) && b.all (fun x => a.contains x)
